@@ -544,7 +544,7 @@ func main() {
 	const base = "github.com/cuteLittleDevil/go-jt808/"
 	specs := []pkgSpec{
 		{path: base + "service", conc: !*plain, imports: map[string]string{
-			"net": "verif/harness/vnet", "time": "verif/harness/vtime", "sync": "verif/harness/vsync"}},
+			"net": "verif/harness/vnet", "time": "verif/harness/vtime", "sync": "verif/harness/vsync", "sync/atomic": "verif/harness/vatomic"}},
 		{path: base + "attachment", conc: false, imports: map[string]string{"os": "verif/harness/vos"}},
 	}
 	if *plain {
@@ -556,14 +556,14 @@ func main() {
 	for _, e := range strings.Split(*extra, ",") {
 		if e != "" {
 			specs = append(specs, pkgSpec{path: e, conc: true, imports: map[string]string{
-				"net": "verif/harness/vnet", "time": "verif/harness/vtime", "sync": "verif/harness/vsync"}})
+				"net": "verif/harness/vnet", "time": "verif/harness/vtime", "sync": "verif/harness/vsync", "sync/atomic": "verif/harness/vatomic"}})
 		}
 	}
 	cfg := &packages.Config{
 		Mode: packages.NeedName | packages.NeedFiles | packages.NeedCompiledGoFiles | packages.NeedSyntax |
 			packages.NeedTypes | packages.NeedTypesInfo | packages.NeedImports | packages.NeedDeps,
 		Dir:        *harness,
-		Env:        append(os.Environ(), "GOFLAGS=-mod=mod", "GOPROXY=off", "GOSUMDB=off", "GOTOOLCHAIN=local"),
+		Env:        append(os.Environ(), "GOFLAGS="+goflags(), "GOPROXY=off", "GOSUMDB=off", "GOTOOLCHAIN=local"),
 		BuildFlags: []string{"-tags=verif"},
 	}
 	var pats []string
@@ -646,4 +646,15 @@ func main() {
 		fmt.Fprintln(os.Stderr, err)
 		os.Exit(2)
 	}
+}
+
+// goflags keeps a -modfile already present in GOFLAGS (seeded-change testing against another checkout).
+func goflags() string {
+	f := "-mod=mod"
+	for _, w := range strings.Fields(os.Getenv("GOFLAGS")) {
+		if strings.HasPrefix(w, "-modfile=") {
+			f += " " + w
+		}
+	}
+	return f
 }
